@@ -3,6 +3,10 @@
  * {build(state i) -> slot, dup(slot -> other slot), mutate(slot, j), del(slot)}; after every
  * explored history everything the program owns is deleted and the heap must be back at its
  * baseline; ASan reports double frees and use after free. */
+#ifdef VERIF_TRACKCHECK
+# include <config.h>
+# include "mem.c"                  /* DEBUG=5 build: the tracker's private table is read after every teardown (C15, whole-library clause) */
+#endif
 #include "classes.h"
 
 static cls_t *C;
@@ -65,6 +69,12 @@ static void teardown(void *vs)
     mc_set_shape(last);
     for (int i = 0; i < 2; i++) if (s->o[i]) { SPIF_OBJ_DEL(s->o[i]); s->o[i] = NULL; }
     long left = mc_live_bytes() - s->base;
+#ifdef VERIF_TRACKCHECK
+    if (malloc_rec.cnt != 0) { char sh[160]; snprintf(sh, sizeof sh, "after %s", last);
+        FAIL(cls_label(C), "model:tracker-table-not-empty", sh, "the memory tracker still lists %lu blocks after every object was deleted (first: %s:%u, %lu bytes)", (unsigned long) malloc_rec.cnt,
+             (char *) malloc_rec.ptrs[0].file, (unsigned) malloc_rec.ptrs[0].line, (unsigned long) malloc_rec.ptrs[0].size);
+        malloc_rec.cnt = 0; }
+#endif
     if (left != 0) { char sh[160]; snprintf(sh, sizeof sh, "after %s", last); FAIL(cls_label(C), "leak", sh, "%ld bytes still allocated after the program deleted every object it owned", left); }
     free(s);
 }
@@ -79,7 +89,12 @@ static void warm(void *ctx)
 }
 int main(int argc, char **argv)
 {
+#ifdef VERIF_TRACKCHECK
+    mc_init("C15", argc, argv);
+    libast_debug_level = 5;
+#else
     mc_init("C06", argc, argv);
+#endif
     int depth = (int) mc_arg_int("depth", mc_thorough() ? 6 : 4);
     const char *only = mc_arg("class", NULL);
     mc_info("alphabet", "per class (str, ustr, mbuff, objpair, tok, url, regexp, list/vector/map x 3 families): two slots; ops build(state) x slot, dup, every ownership-correct mutator "
